@@ -68,6 +68,9 @@ Scenario(i) ==
     [] i = 20 -> [init |-> <<10, 0>>, ops |-> <<Op("set", 2, 21), Op("load", 1, 0)>>]
     [] i = 21 -> [init |-> <<10, 20>>, ops |-> <<Op("del", 1, 0), Op("set", 2, 21)>>]
     [] i = 22 -> [init |-> <<0, 0>>, ops |-> <<Op("set", 1, 11), Op("set", 2, 21), Op("items", 1, 0)>>]
+    \* a process that merely opens the archive while another one writes / overwrites (opening does nothing to the store)
+    [] i = 23 -> [init |-> <<10, 0>>, ops |-> <<Op("set", 2, 21), Op("open", 1, 0)>>]
+    [] i = 25 -> [init |-> <<10, 0>>, ops |-> <<Op("set", 1, 11), Op("open", 1, 0)>>]
     [] i = 27 -> [init |-> <<0, 0>>, ops |-> <<Op("set", 1, 11), Op("set", 1, 12)>>]
     [] i = 28 -> [init |-> <<10, 0>>, ops |-> <<Op("set", 1, 11), Op("set", 1, 12)>>]
     [] OTHER -> [init |-> <<0, 0>>, ops |-> <<Op("len", 1, 0)>>]
